@@ -25,6 +25,8 @@ def run_one(sid):
     if not os.path.isdir(d) or not os.path.exists(os.path.join(d, "meta.json")):
         return
     meta = json.load(open(os.path.join(d, "meta.json")))
+    if meta.get("retired") and not a.ids:
+        return
     prop = meta["property"]
     props = ALL if a.props == "all" else (a.props.split(",") if a.props else [prop])
     tmp = tempfile.mkdtemp(prefix="bhw-seed-")
